@@ -231,3 +231,32 @@ func ZZ_C17Off(shape int) {
 	}
 	verifhook.Canary()
 }
+
+func ZZ_C17TokN() int { return 4 }
+
+func ZZ_C17TokDesc(i int) string {
+	return fmt.Sprintf("cursor of a query whose filter holds a value of %d arbitrary printable byte(s)", i+1)
+}
+
+// ZZ_C17Tok: the token of a cursor is accepted back whatever text the query carries --
+// what the encoder writes, the decoder reads (alphabet and padding included).
+func ZZ_C17Tok(shape int) {
+	n := shape + 1
+	tag := verifhook.String("tag", n)
+	for i := 0; i < n; i++ {
+		verifhook.Assume(verifhook.ByteClass(tag[i], []string{"a-zA-Z0-9?~ ._:/@!*()$,;=+-"}) == 0)
+	}
+	q := ColumnPaginatedQuery[zzFilters]{PageSize: uint64(15 + verifhook.Choose("pageSizeDigits", 3)*85), Column: "id", Order: OrderDesc, Options: zzFilters{Tag: tag}}
+	q.PaginationID = big.NewInt(int64(7 + verifhook.Choose("idDigits", 3)*496))
+	token := EncodeCursor(q)
+	back := &ColumnPaginatedQuery[zzFilters]{}
+	err := UnmarshalCursor(token, back)
+	verifhook.Reach("decoded")
+	verifhook.Assert(err == nil, "C17 a cursor token the server hands out is not accepted back")
+	if err != nil {
+		return
+	}
+	verifhook.Assert(verifhook.StrEq(back.Options.Tag, tag), "C17 the decoded cursor carries another filter value")
+	verifhook.Assert(back.PageSize == q.PageSize && back.PaginationID != nil && back.PaginationID.Cmp(q.PaginationID) == 0, "C17 the decoded cursor stands for another page")
+	verifhook.Canary()
+}
